@@ -32,6 +32,37 @@ def load_spec(ctx):
         return json.load(f)
 
 
+def explicit_max_loop(prog, b):
+    c = cnd.conds(prog, b)
+    d = df.defs(b)
+    best = None
+    for l, ds in d.whole.items():
+        if len(ds) == 2 and not (1 <= l <= b.argc):
+            trees = []
+            for (bi, si, dd) in ds:
+                trees.append((bi, df.canon(c.prov.rvalue_tree(dd[1]) if dd[0] == "assign" else c.prov.call_tree(dd[1]), b)))
+            # first candidate, then replaced by a later `next(iter)` item
+            if any(t_.startswith("branch(next(") or t_.startswith("next(") for (_, t_) in trees) and \
+                    any(t_ == "next(iter)" for (_, t_) in trees):
+                best = (l, trees)
+    if best is None:
+        return False
+    l, trees = best
+    repl = [bi for (bi, t_) in trees if t_ == "next(iter)"]
+    ok_repl = False
+    for bi in repl:
+        for lit in c.must_literals(bi):
+            if lit[0] == "cmp" and lit[1] == "ne" and df.canon(lit[3], b).startswith("Ordering::Greater"):
+                x = df.strip(lit[2])
+                if x[0] == "call" and x[2] == "compare" and "BestAnnounceMessage" in x[1] and len(x[3]) == 2 and \
+                        df.canon(x[3][1], b) == "next(iter)":
+                    ok_repl = True
+    # the result is Some(best) once the iterator is exhausted; an empty input gives None through `?`
+    rows = cnd.result_rows(prog, b)
+    ok_ret = any(r_.startswith("Some(phi(") and any("next(iter) in {None}" == w for w in w_) for (r_, w_) in rows)
+    return ok_repl and ok_ret
+
+
 def check_decision_application(rep, prog, rid="BMCA-5"):
     """every decision code moves the port to the prescribed state, from every prior state. Shared with C12 (TMR-7:
     a decision that is skipped for some prior state leaves the port where no timer will ever move it)."""
@@ -105,6 +136,12 @@ def run(ctx):
             continue
         got = cnd.result_rows(prog, b, positional=True)
         want = sorted((r["result"], sorted(r["when"])) for r in rows)
+        if fn == "find_best_announce_message" and not any(r_.startswith("max_by(") for (r_, w_) in got):
+            # the same selection written as an explicit loop: start from the first candidate, replace the incumbent
+            # unless incumbent.compare(candidate) is Greater (= Iterator::max_by: last maximum wins), return Some(best)
+            if explicit_max_loop(prog, b):
+                rep.ok("BMCA-7", b.key, "explicit maximum loop under BestAnnounceMessage::compare (== max_by)", where=b.loc())
+                continue
         # normal form: integer constraints folded per subject, multi-variant literals split (see conds.norm_rows)
         gset = cnd.norm_rows(got)
         wset = cnd.norm_rows(want)
